@@ -533,7 +533,62 @@ def selftest():
     assert _mac_subst("AA:BB:cc:dd:ee:ff") == _mac_subst("aa:bb:cc:dd:ee:ff") != "aa:bb:cc:dd:ee:ff"
 
 
+# ---- the system's own name when the cleaner is not told one (as collect() builds it) -----------------
+
+def check_sysname(case):
+    """collect() builds the cleaner without a host name: the cleaner finds the system's name itself.  A
+    configured display name is a label for the inventory, not the system's name: the real name (and its
+    domain peers) are what is replaced, and the mapping lists nothing that neither occurred nor is the
+    system's own name."""
+    import socket
+    from types import SimpleNamespace
+    from insights.cleaner import Cleaner
+    real = case["fqdn"]
+    short = real.split(".")[0]
+    domain = real.split(".", 1)[1]
+    peers = ["%s.%s" % (p_, domain) for p_ in case["peers"]]
+    saved = (socket.gethostname, socket.getfqdn, socket.gethostbyname_ex)
+    socket.gethostname = lambda: short
+    socket.getfqdn = lambda *a: real
+    socket.gethostbyname_ex = lambda *a: (real, [], ["192.0.2.7"])
+    tmp = tempfile.mkdtemp(prefix="vp-c09-")
+    try:
+        cfg = SimpleNamespace(obfuscate=True, obfuscate_hostname=True, obfuscate_ipv6=False, obfuscate_mac=False,
+                              display_name=case["display_name"], rhsm_facts_file=os.path.join(tmp, "facts"))
+        cl = Cleaner(cfg, {})
+        lines = ["zq %s zq" % real, "zq login on %s ok" % short] + ["zq peer %s up" % p_ for p_ in peers]
+        out = cl.clean_content(list(lines))
+        text = "\n".join(out)
+        for name in [real] + peers:
+            if name in text:
+                raise Violation("the cleaner was built without a host name (as collect() does) with display_name=%r; "
+                                "the system is %r, yet %r survives in the cleaned content"
+                                % (case["display_name"], real, name), output=out)
+        if re.search(r"(?<![\w.-])%s(?![\w.-])" % re.escape(short), text):
+            raise Violation("the system's short name %r survives in the cleaned content" % short, output=out)
+        originals = [m["original"] for m in cl.obfuscate["hostname"].mapping()]
+        occurred = set([real, short] + peers)
+        for o in originals:
+            if o not in occurred:
+                raise Violation("the host-name mapping lists the original %r, which neither occurs in the content nor is "
+                                "the system's own name (%r)" % (o, real), mapping=originals)
+        return {"nontrivial": bool(peers) and case["display_name"] not in occurred,
+                "labels": ["peers=%d" % len(peers), "display-name-in-domain" if case["display_name"].endswith(domain) else "display-name-foreign"]}
+    finally:
+        socket.gethostname, socket.getfqdn, socket.gethostbyname_ex = saved
+        shutil.rmtree(tmp, ignore_errors=True)
+
+
+def strat_sysname(tier):
+    lab = st.text("abcdefghijklmnopqrstuvwxyz", min_size=3, max_size=6).map(lambda t: t + "q")
+    return st.fixed_dictionaries({
+        "fqdn": st.builds(lambda l, d: "%s7.%s" % (l, d), lab, st.sampled_from(["corp.acme.org", "lab.example.net", "int.site.io"])),
+        "peers": st.lists(lab.map(lambda l: l + "9"), min_size=0, max_size=3, unique=True),
+        "display_name": st.one_of(lab.map(lambda l: "dn-%s.inventory.test" % l), lab.map(lambda l: "shown-" + l))})
+
+
 SUBS = [
+    Sub("sysname", check_sysname, strategy=strat_sysname, quick=100, thorough=1000, workers_quick=2, workers_thorough=4),
     Sub("history", check_history, strategy=strat_history, quick=600, thorough=3500, workers_quick=4,
         workers_thorough=16, budget_quick=50, budget_thorough=560),
 ]
